@@ -91,10 +91,10 @@ CHECKS.update({
    text='Joint Miller loop = product of single-pair loops over the non-identity pairs for all 4^n identity patterns (n <= 2 quick, 3 thorough); each pair consumes exactly its own 68 coefficients in order (67 makes unwrap fail); single-loop schedule equals an independent transcription of the optimal-ate loop for |x|/2; G2Prepared::from_affine produces 68 coefficients in doubling/addition order; pairing / pairing_product / pairing_multi_product build the lists in order and exponentiate once.',
    note='Partial: the value e(g1,g2)^(sum a_i b_i) needs bilinearity (C03, not applicable). Fq12 commutativity and sparse products from C09, multiplicativity of the final exponentiation from C12. No SMT query is needed here because execution over formal generators leaves no symbolic unknowns; stated as such.',
    ref='6/C11'),
- 'C13': dict(level='model_checking', engine='K-mock + K-bits',
-   technique='Kani/CBMC bounded model checking of the real generic expand_message / hash_to_field code instantiated with position-sensitive mock hashes, and of from_okm / from_ro with a recording multiplication stub',
-   text='expand_message_xmd and _xof equal an independent RFC 9380 5.3 transcription for all message and tag bytes at a grid of lengths (incl. empty message, empty tag, truncation mid-block, zero length), 256 blocks abort; hash_to_field makes one expander call with count*L and splits consecutive blocks; Fq::from_okm / Fr::from_okm = hi*2^256+lo / hi*2^192+lo for all 64/48-byte blocks, Fq2::from_ro takes c0 from the first 64 bytes.',
-   note='SHA-2 / SHAKE internals and real XOF readers not modelled; lengths from a stated grid; the multiplier literals are C08 ground facts.',
+ 'C13': dict(level='model_checking', engine='S-euf + K-mock + K-bits',
+   technique='MIR symbolic execution of the real generic expand_message_xmd / expand_message_xof / hash_to_field bodies with the hash function uninterpreted (absorb/output symbols), obligations decided by z3 and failing ones replayed natively through SHA-256/SHA-512/SHAKE128 against hashlib; Kani/CBMC bounded model checking of the same code over position-sensitive mock hashes and of from_okm / from_ro with a recording multiplication stub',
+   text='expand_message_xmd and _xof equal an independent RFC 9380 5.3 transcription for every message byte, every tag byte and every hash function at a boundary grid of lengths (tags of 0, 1, 254 and 255 bytes, messages around the block size, output lengths around multiples of the digest size, 255 blocks served, anything above aborts); hash_to_field makes one expander call with count*L and applies from_ro to consecutive L-byte blocks (L = 48, 64, 128; counts 0..8); Fq::from_okm / Fr::from_okm = hi*2^256+lo / hi*2^192+lo for all 64/48-byte blocks, Fq2::from_ro takes c0 from the first 64 bytes.',
+   note='Lengths come from a stated grid (concrete lengths, symbolic contents); SHA-2 / SHAKE internals are not modelled (uninterpreted in the S-euf part, mocks in Kani; a native differential against hashlib on the grid runs the real hashes as a supplementary oracle); the multiplier literals are C08 ground facts.',
    ref='6/C13'),
  'C18': dict(level='other', engine='K-bits + S-euf',
    technique='Kani/CBMC on sgn0 / ordering / negate_if for all canonical values; ring-domain conformance of Fq2::sqrt to Alg. 9 with pow and Frobenius uninterpreted; z3',
